@@ -245,7 +245,11 @@ func RunHarness(h *Harness, opt *Options) (*Result, error) {
 			case "panic":
 				vr.Reproduced = o.Outcome == "panic"
 			default:
-				if strings.HasPrefix(v.Label, "write-to-frozen:") || strings.HasPrefix(v.Label, "race:") {
+				if strings.HasPrefix(v.Label, "race:") {
+					// replay under the Go race detector
+					fired, _ := NativeReplayRace(opt, h.Pkg, l.ov, []NativeCase{vr.Case})
+					vr.Reproduced = fired
+				} else if strings.HasPrefix(v.Label, "write-to-frozen:") || v.Label == "deadlock" {
 					// engine-only monitors: not observable natively; reproduced if the native run follows the same path without diverging
 					vr.Reproduced = o.Outcome == "ok" || o.Outcome == "fail"
 				} else {
@@ -298,9 +302,20 @@ func mkCase(harness string, m sym.Model, choices map[string]int, inputs []interp
 
 // NativeReplay runs the cases against the natively compiled code in one go test process.
 func NativeReplay(opt *Options, pkgRel string, ov map[string][]byte, cases []NativeCase) ([]NativeOut, error) {
+	outs, _, err := nativeReplay(opt, pkgRel, ov, cases, false)
+	return outs, err
+}
+
+// NativeReplayRace replays cases under the Go race detector and reports whether it fired.
+func NativeReplayRace(opt *Options, pkgRel string, ov map[string][]byte, cases []NativeCase) (bool, error) {
+	_, text, err := nativeReplay(opt, pkgRel, ov, cases, true)
+	return strings.Contains(text, "WARNING: DATA RACE"), err
+}
+
+func nativeReplay(opt *Options, pkgRel string, ov map[string][]byte, cases []NativeCase, race bool) ([]NativeOut, string, error) {
 	tmp, err := os.MkdirTemp("", "gosymx-replay-")
 	if err != nil {
-		return nil, err
+		return nil, "", err
 	}
 	defer os.RemoveAll(tmp)
 	repl := map[string]string{}
@@ -309,7 +324,7 @@ func NativeReplay(opt *Options, pkgRel string, ov map[string][]byte, cases []Nat
 		f := filepath.Join(tmp, fmt.Sprintf("ov%d_%s", i, filepath.Base(path)))
 		i++
 		if err := os.WriteFile(f, content, 0o644); err != nil {
-			return nil, err
+			return nil, "", err
 		}
 		repl[path] = f
 	}
@@ -320,7 +335,12 @@ func NativeReplay(opt *Options, pkgRel string, ov map[string][]byte, cases []Nat
 	outFile := filepath.Join(tmp, "out.json")
 	cj, _ := json.Marshal(cases)
 	os.WriteFile(inFile, cj, 0o644)
-	cmd := exec.Command("go", "test", "-tags", "verif", "-vet=off", "-count=1", "-timeout", "20m", "-run", "^TestVerifReplay$", "-overlay", ovFile, "./"+pkgRel)
+	args := []string{"test", "-tags", "verif", "-vet=off", "-count=1", "-timeout", "20m", "-run", "^TestVerifReplay$", "-overlay", ovFile}
+	if race {
+		args = append(args, "-race")
+	}
+	args = append(args, "./"+pkgRel)
+	cmd := exec.Command("go", args...)
 	cmd.Dir = opt.Repo
 	cmd.Env = append(os.Environ(), "GOFLAGS=-mod=mod", "GOPROXY=off", "GOSUMDB=off", "GOTOOLCHAIN=local", "VERIF_REPLAY="+inFile, "VERIF_OUT="+outFile)
 	var buf bytes.Buffer
@@ -328,16 +348,16 @@ func NativeReplay(opt *Options, pkgRel string, ov map[string][]byte, cases []Nat
 	runErr := cmd.Run()
 	b, err := os.ReadFile(outFile)
 	if err != nil {
-		return nil, fmt.Errorf("go test produced no output file (%v):\n%s", runErr, tail(buf.String(), 4000))
+		return nil, buf.String(), fmt.Errorf("go test produced no output file (%v):\n%s", runErr, tail(buf.String(), 4000))
 	}
 	var outs []NativeOut
 	if err := json.Unmarshal(b, &outs); err != nil {
-		return nil, err
+		return nil, "", err
 	}
 	if len(outs) != len(cases) {
-		return nil, fmt.Errorf("native replay returned %d results for %d cases", len(outs), len(cases))
+		return nil, buf.String(), fmt.Errorf("native replay returned %d results for %d cases", len(outs), len(cases))
 	}
-	return outs, nil
+	return outs, buf.String(), nil
 }
 
 func tail(s string, n int) string {
